@@ -179,6 +179,34 @@ func replayOddFaults() (finds []Finding) {
 			intact(what+", child again", m, "good3", good)
 		}
 	}
+	// (b2) Stringers arrays with a nil or panicking element at every position: rendered in place, the rest intact
+	for pos := 0; pos < 3; pos++ {
+		for name, bad := range map[string]fmt.Stringer{"nil pointer": (*jePtrStringer)(nil), "panicking": jePanicStringer{}} {
+			els := []fmt.Stringer{jeStringer{"a"}, jeStringer{"b"}, jeStringer{"c"}}
+			els[pos] = bad
+			what := fmt.Sprintf("zap.Stringers with a %s element at position %d of 3", name, pos+1)
+			m := emit(what, func() { lg.Info("m", zap.Stringers("ss", els), zap.Int("after", 2)) })
+			intact(what, m, "after", 2)
+			if m != nil && name == "panicking" {
+				// the array marshaler fails at that element: the failure is described next to the array
+				if _, ok := m["ssError"]; !ok {
+					add("value", "%s: the entry carries no ssError field describing the failure: %v", what, m)
+				}
+			} else if m != nil {
+				if arr, ok := m["ss"].([]interface{}); !ok || len(arr) != 3 {
+					add("value", "%s: the array came out as %v, want three elements", what, m["ss"])
+				} else {
+					for i, want := range []string{"a", "b", "c"} {
+						if i != pos && fmt.Sprint(arr[i]) != want {
+							add("value", "%s: element %d came out as %v, want %q", what, i+1, arr[i], want)
+						}
+					}
+				}
+			}
+			m = emit(what+" (in the context)", func() { lg.With(zap.Stringers("ss", els)).Info("m", zap.Int("after", 3)) })
+			intact(what+" (in the context)", m, "after", 3)
+		}
+	}
 	// (c2) an array whose reflected element fails, at every position, with fields after it
 	for pos := 0; pos < 3; pos++ {
 		pos := pos
